@@ -32,4 +32,10 @@ string that keys the cache — and `Roots`; no `CurrentTime` (the real clock dec
 theorem facts_verify_call :
     Generated.Mitm.verifyOptionKeys = ["DNSName", "Roots"] ∧ Generated.Mitm.verifyNameIsCacheKey = true := by decide
 
+/-- A cache hit is returned only from inside the success branch of its own `Leaf.Verify` (model: `certFor`,
+`stepF` hand out a cached certificate only after `goVerify`): no shortcut — memoised verdict, rate limit,
+"checked recently" — returns the entry unverified. -/
+theorem facts_hit_verified :
+    Generated.Mitm.unverifiedHitReturns = 0 ∧ 1 ≤ Generated.Mitm.verifiedHitReturns := by decide
+
 end Martian.Props.C06
